@@ -13,6 +13,7 @@ import (
 	"path/filepath"
 	"runtime/debug"
 	"sort"
+	"strings"
 	"testing"
 
 	"github.com/sanonone/kektordb/internal/verifkit"
@@ -43,21 +44,21 @@ func c07GenRecall(maxDim int) *rapid.Generator[c07RecallCase] {
 		var c c07RecallCase
 		c.LevelSeed = rapid.Int64Range(1, 1<<40).Draw(t, "levelSeed")
 		c.DataSeed = rapid.Uint64Range(1, 1<<40).Draw(t, "dataSeed")
-		mp := rapid.SampledFrom(c07MetricPrec).Draw(t, "metricPrec")
+		mp := c07MetricPrec[rapid.SampledFrom([]int{0, 0, 0, 0, 0, 0, 0, 1, 1, 1, 1, 1, 1, 1, 2, 2, 2, 2, 3, 3}).Draw(t, "metricPrec")]
 		dims := []int{2, 3, 8, 16, 32, 64}
 		if maxDim >= 256 {
 			dims = append(dims, 128, 256)
 		}
 		c.Cfg = c07Cfg{Metric: mp[0], Prec: mp[1],
-			M:   rapid.SampledFrom([]int{2, 4, 8, 16}).Draw(t, "M"),
-			EfC: rapid.SampledFrom([]int{8, 40, 200}).Draw(t, "efC"),
+			M:   rapid.SampledFrom([]int{16, 16, 16, 16, 16, 16, 16, 16, 8, 8, 8, 8, 8, 8, 8, 8, 4, 4, 2, 2}).Draw(t, "M"),
+			EfC: rapid.SampledFrom([]int{200, 200, 200, 200, 40, 40, 40, 40, 8}).Draw(t, "efC"),
 			Dim: rapid.SampledFrom(dims).Draw(t, "dim")}
 		c.N = rapid.SampledFrom([]int{200, 500, 500, 1000, 1000, 2000, 3000}).Draw(t, "n")
 		if c.Cfg.Dim >= 128 && c.N > 1000 {
 			c.N = 1000
 		}
-		c.Data = rapid.SampledFrom([]string{"uniform", "gauss", "clustered", "clustered", "dups", "zeros"}).Draw(t, "data")
-		c.Build = rapid.SampledFrom([]string{"single", "batch", "import", "mixed"}).Draw(t, "build")
+		c.Data = rapid.SampledFrom([]string{"uniform", "uniform", "uniform", "uniform", "gauss", "gauss", "gauss", "gauss", "clustered", "clustered", "clustered", "clustered", "clustered", "clustered", "dups", "dups", "dups", "zeros", "zeros", "zeros"}).Draw(t, "data")
+		c.Build = rapid.SampledFrom([]string{"single", "single", "batch", "batch", "import", "import", "mixed"}).Draw(t, "build")
 		c.Chunk = rapid.SampledFrom([]int{50, 200, 1000}).Draw(t, "chunk")
 		np := rapid.IntRange(1, 5).Draw(t, "nPhases")
 		compressed := false
@@ -153,6 +154,7 @@ func c07MakeData(c c07RecallCase) (vecs [][]float32, fresh func() []float32, rng
 
 // c07Point is one checkpoint measurement.
 type c07Point struct {
+	Class    string  `json:"class"` // stratum of this checkpoint (c07Class)
 	After    string  `json:"after"`
 	Live     int     `json:"live"`
 	Recall0  float64 `json:"recall_ef0"`   // recall@10 with efSearch=0 (the default: ef = k)
@@ -177,6 +179,11 @@ type c07rRun struct {
 	snapEP      string
 	snapDead    bool
 	dirtyDel    bool // a delete (or restart) happened since the entry point was last looked at
+	imported    bool // part of the current graph was built by VImport
+	restored    bool // a fast-import graph came back from a snapshot (needs-refine compensation lost)
+	counter     int  // harness estimate of the index's node counter (decides which batches take the parallel path)
+	nSeq, nPar  int  // nodes of the current graph inserted one by one (Index.Add) / by the parallel batch path
+	seqWork     bool // the history contains sequential inserts on a non-trivial graph (finding add-prune-unsorted)
 	excluded    int
 	excludedVac int
 	points      []c07Point
@@ -184,6 +191,23 @@ type c07rRun struct {
 }
 
 func c07VID(i int) string { return fmt.Sprintf("n%d", i) }
+
+// path: how the nodes of the current graph were inserted - "seq" (at least half of them one by one through
+// Index.Add), "par" (at most 15 % one by one), "mix"; suffix R = fast-import graph restored from a snapshot.
+func (r *c07rRun) path() string {
+	p := "mix"
+	tot := r.nSeq + r.nPar
+	switch {
+	case tot == 0 || 2*r.nSeq >= tot:
+		p = "seq"
+	case 100*r.nSeq <= 15*tot:
+		p = "par"
+	}
+	if r.restored {
+		p += "R"
+	}
+	return p
+}
 
 func (r *c07rRun) guardEP() string {
 	if !r.dirtyDel {
@@ -230,6 +254,8 @@ func (r *c07rRun) insert(path string, from, to int) string {
 				return fmt.Sprintf("harness: VAdd(%s) failed: %v", c07VID(i), err)
 			}
 			r.liveIDs = append(r.liveIDs, c07VID(i))
+			r.counter++
+			r.nSeq++
 		}
 	case "batch", "import":
 		for s := from; s < to; s += r.c.Chunk {
@@ -250,6 +276,20 @@ func (r *c07rRun) insert(path string, from, to int) string {
 			if err != nil {
 				return fmt.Sprintf("harness: %s insert of %d items failed: %v", path, len(items), err)
 			}
+			// a batch is inserted one by one (Index.Add) while the node counter is below efConstruction
+			// (VAddBatch) / max(2*M, 40) (VImport), otherwise by the parallel path
+			thr := r.c.Cfg.EfC
+			if path == "import" {
+				if thr = 2 * r.c.Cfg.M; thr < 40 {
+					thr = 40
+				}
+			}
+			if r.counter < thr {
+				r.nSeq += e - s
+			} else {
+				r.nPar += e - s
+			}
+			r.counter += e - s
 			for i := s; i < e; i++ {
 				r.liveIDs = append(r.liveIDs, c07VID(i))
 			}
@@ -286,7 +326,7 @@ func (r *c07rRun) measure(after string) string {
 			live = append(live, lv{id, vd.Vector})
 		}
 	}
-	pt := c07Point{After: after, Live: len(live), Self: -1, Refining: h.NeedsRefine()}
+	pt := c07Point{Class: c07Class(r.c, r.prec, r.path()), After: after, Live: len(live), Self: -1, Refining: h.NeedsRefine()}
 	if g, err := c07ReadGraph(r.e); err == nil {
 		pt.EpLevel = g.MaxLevel
 	}
@@ -374,6 +414,11 @@ func (r *c07rRun) measure(after string) string {
 			}
 		}
 	}
+	if os.Getenv("VERIF_C07_DEBUG") != "" {
+		if g, err := c07ReadGraph(r.e); err == nil {
+			fmt.Printf("DEBUG after[%s] %s\n", after, g.connectivity())
+		}
+	}
 	pt.Recall0 = hit0 / den
 	pt.Recall1 = hit1 / den
 	if selfN > 0 {
@@ -443,6 +488,9 @@ func (r *c07rRun) phase(p string) string {
 		}
 		r.prec = to
 		r.noteSnapshot()
+		// the index was rebuilt from scratch by sequential inserts of the live vectors
+		r.imported, r.restored, r.seqWork = false, false, true
+		r.counter, r.nSeq, r.nPar = len(r.liveIDs), len(r.liveIDs), 0
 	case "restart":
 		if verifkit.Known(c07FindingEP) && r.hasSnap && r.snapDead {
 			if err := r.e.SaveSnapshot(); err != nil {
@@ -462,6 +510,14 @@ func (r *c07rRun) phase(p string) string {
 		}
 		r.e = e
 		r.dirtyDel = true
+		if !r.hasSnap {
+			// log-only recovery re-inserts the live vectors one by one
+			r.seqWork = true
+			r.counter, r.nSeq, r.nPar = len(r.liveIDs), len(r.liveIDs), 0
+		} else if r.imported {
+			// the graph of a fast import came back from a snapshot; the needs-refine compensation is not persisted
+			r.restored = true
+		}
 	case "grow":
 		// more inserts after the history so far (single inserts and one batch)
 		n := r.c.N / 20
@@ -472,6 +528,7 @@ func (r *c07rRun) phase(p string) string {
 			return ""
 		}
 		half := n / 2
+		r.seqWork = true
 		if m := r.insert("single", r.nextVec, r.nextVec+half); m != "" {
 			return m
 		}
@@ -513,6 +570,8 @@ func c07RunRecall(c c07RecallCase) (msg string, r *c07rRun) {
 	if err := c07Create(e, c.Cfg); err != nil {
 		return "harness: VCreate: " + err.Error(), r
 	}
+	r.imported = c.Build == "import" || c.Build == "mixed"
+	r.seqWork = c.Build == "single" || c.Build == "mixed"
 	switch c.Build {
 	case "single", "batch", "import":
 		msg = r.insert(c.Build, 0, c.N)
@@ -550,50 +609,92 @@ func c07RunRecall(c c07RecallCase) (msg string, r *c07rRun) {
 
 // c07Class is the stratum a checkpoint belongs to: recall of a correct HNSW depends first of all on
 // M and efConstruction, so the floors are per (M, efConstruction).
-func c07Class(c c07RecallCase) string {
-	grp := "plain" // uniform, gauss, clustered
+func c07Class(c c07RecallCase, prec, path string) string {
+	kind := "plain" // uniform, gauss, clustered
 	if c.Data == "dups" || c.Data == "zeros" {
-		grp = c.Data
+		kind = c.Data
 	}
-	return fmt.Sprintf("M%d/efC%d/%s", c.Cfg.M, c.Cfg.EfC, grp)
+	// how hard the data is for a proximity graph: intrinsic dimension
+	hard := "high"
+	switch {
+	case c.Cfg.Dim <= 3:
+		hard = "lowdim"
+	case c.Data == "clustered":
+		hard = "clustered"
+	case c.Cfg.Dim <= 16:
+		hard = "mid"
+	case c.Cfg.Dim >= 128:
+		hard = "vhigh"
+	}
+	q := ""
+	if prec == "int8" {
+		q = "/int8" // quantised codes: many collapsed / tied codes
+	}
+	return fmt.Sprintf("M%d/efC%d/%s/%s%s/%s", c.Cfg.M, c.Cfg.EfC, kind, hard, q, path)
 }
 
+// c07JudgeClass is the class whose floors a checkpoint is held to. Known finding "add-prune-unsorted"
+// (sequential inserts prune reverse links on an unsorted candidate list and build a worse graph than the batch
+// path): while it is listed every checkpoint is held to the floor measured for its own build path; with
+// VERIF_NOEXCLUDE=add-prune-unsorted the floors of the batch-built graphs of the same configuration apply to all.
+func c07JudgeClass(class string) string {
+	if verifkit.Known(c07FindingPrune) {
+		return class
+	}
+	for _, sfx := range []string{"/seq", "/mix"} {
+		if strings.HasSuffix(class, sfx) {
+			return strings.TrimSuffix(class, sfx) + "/par"
+		}
+	}
+	return class
+}
+
+// c07Stat is the measured distribution of one statistic in one class on the unchanged tree and the floor
+// derived from it: Floor = min(Mean - 10*Sd, Min - 2*Sd), where Sd is the measured standard deviation but
+// not less than the resolution of the statistic (0.01 for recall, 1/30 for the self-retrieval rate).
+type c07Stat struct {
+	Mean, Sd, Min, Floor float64
+}
+
+// c07Floor: floors of one class. Points / Cases = size of the sample they were measured on.
 type c07Floor struct {
-	Mean0, Sd0 float64 // recall@10, efSearch=0
-	Mean1, Sd1 float64 // recall@10, efSearch=100
-	MeanS, SdS float64 // self-retrieval
+	Points, Cases int
+	R0            c07Stat // recall@10, efSearch=0
+	R1            c07Stat // recall@10, efSearch=100
+	Self          c07Stat // self-retrieval rate
 }
-
-// c07Floors is filled from the measurement campaign on the unchanged tree (see c07_floors_test.go).
-var c07Floors = map[string]c07Floor{}
 
 const c07Sigmas = 10.0
 
-// c07Judge compares one case with the per-checkpoint floors: mean - 10 sigma of the class.
+// c07Judge compares every checkpoint of one case with the floors of its class (c07Floors, generated from
+// the measurement campaign by c07_mkfloors.py into c07_floors_test.go). Classes without a measured floor
+// are observed only.
 func c07Judge(c c07RecallCase, pts []c07Point) string {
-	f, ok := c07Floors[c07Class(c)]
-	if !ok {
-		return ""
-	}
 	for _, p := range pts {
-		if p.Live < 50 {
+		if p.Live < 50 || strings.HasSuffix(p.Class, "R") {
 			continue
 		}
-		if fl := f.Mean0 - c07Sigmas*f.Sd0; p.Recall0 < fl {
-			return fmt.Sprintf("recall@10 (efSearch=0) after [%s] is %.3f, below the floor %.3f of class %s (measured mean %.3f, sd %.3f, floor = mean - %g sd); live=%d maxLevel=%d short-result queries=%d", p.After, p.Recall0, fl, c07Class(c), f.Mean0, f.Sd0, c07Sigmas, p.Live, p.EpLevel, p.Short)
+		jc := c07JudgeClass(p.Class)
+		f, ok := c07Floors[jc]
+		if !ok {
+			continue
 		}
-		if fl := f.Mean1 - c07Sigmas*f.Sd1; p.Recall1 < fl {
-			return fmt.Sprintf("recall@10 (efSearch=100) after [%s] is %.3f, below the floor %.3f of class %s (measured mean %.3f, sd %.3f, floor = mean - %g sd); live=%d maxLevel=%d", p.After, p.Recall1, fl, c07Class(c), f.Mean1, f.Sd1, c07Sigmas, p.Live, p.EpLevel)
+		detail := fmt.Sprintf("class %s (floor measured on %d checkpoints of %d cases of class %s); live=%d maxLevel=%d short-result queries=%d needsRefine=%v", p.Class, f.Points, f.Cases, jc, p.Live, p.EpLevel, p.Short, p.Refining)
+		if p.Recall0 < f.R0.Floor {
+			return fmt.Sprintf("recall@10 (efSearch=0) after [%s] is %.3f, below the floor %.3f (measured mean %.3f sd %.3f min %.3f); %s", p.After, p.Recall0, f.R0.Floor, f.R0.Mean, f.R0.Sd, f.R0.Min, detail)
 		}
-		if fl := f.MeanS - c07Sigmas*f.SdS; p.Self >= 0 && p.Self < fl {
-			return fmt.Sprintf("self-retrieval rate after [%s] is %.3f, below the floor %.3f of class %s (measured mean %.3f, sd %.3f); live=%d maxLevel=%d", p.After, p.Self, fl, c07Class(c), f.MeanS, f.SdS, p.Live, p.EpLevel)
+		if p.Recall1 < f.R1.Floor {
+			return fmt.Sprintf("recall@10 (efSearch=100) after [%s] is %.3f, below the floor %.3f (measured mean %.3f sd %.3f min %.3f); %s", p.After, p.Recall1, f.R1.Floor, f.R1.Mean, f.R1.Sd, f.R1.Min, detail)
+		}
+		if p.Self >= 0 && p.Self < f.Self.Floor {
+			return fmt.Sprintf("self-retrieval rate after [%s] is %.3f, below the floor %.3f (measured mean %.3f sd %.3f min %.3f); %s", p.After, p.Self, f.Self.Floor, f.Self.Mean, f.Self.Sd, f.Self.Min, detail)
 		}
 	}
 	return ""
 }
 
 func (r *c07rRun) labelList() []string {
-	out := []string{c07Class(r.c), "data:" + r.c.Data, "build:" + r.c.Build, r.c.Cfg.Metric + "/" + r.c.Cfg.Prec, fmt.Sprintf("dim=%d", r.c.Cfg.Dim), fmt.Sprintf("n=%d", r.c.N)}
+	out := []string{"data:" + r.c.Data, "build:" + r.c.Build, r.c.Cfg.Metric + "/" + r.c.Cfg.Prec, fmt.Sprintf("dim=%d", r.c.Cfg.Dim), fmt.Sprintf("n=%d", r.c.N)}
 	for l := range r.labels {
 		out = append(out, l)
 	}
@@ -617,6 +718,9 @@ func TestVerif_C07_recall(t *testing.T) {
 		var c c07RecallCase
 		if err := verifkit.LoadReplay(p, &c); err != nil {
 			t.Fatal(err)
+		}
+		if c.N == 0 {
+			t.Fatal("harness: this file records an aggregate-floor failure of a whole campaign, not one case; re-run the campaign with the seed and tier stored in the file (VERIF_SEED=<seed> bin/check C07 <tier>)")
 		}
 		msg, r := c07RunRecall(c)
 		col.Case(c, c.N >= 500, append(r.labelList(), "replay")...)
@@ -643,12 +747,11 @@ func TestVerif_C07_recall(t *testing.T) {
 	var recs []c07Rec
 	var zsum0, zsum1, zsumS float64
 	var zn0, zn1, znS int
-	rapid.Check(t, func(rt *rapid.T) {
-		c := c07GenRecall(maxDim).Draw(rt, "case")
+	one := func(c c07RecallCase, fatal func(string), extra ...string) {
 		col.InFlight(c)
 		msg, r := c07RunRecall(c)
 		col.Landed()
-		col.Case(c, c.N >= 500, r.labelList()...)
+		col.Case(c, c.N >= 500, append(r.labelList(), extra...)...)
 		if r.excluded > 0 {
 			col.Excluded(c07FindingEP)
 		}
@@ -662,29 +765,61 @@ func TestVerif_C07_recall(t *testing.T) {
 			if !c07IsHarnessError(msg) {
 				col.Fail(c, "%s", msg)
 			}
-			rt.Fatalf("%s", msg)
+			fatal(msg)
+			return
 		}
-		recs = append(recs, c07Rec{Class: c07Class(c), Case: c, Points: r.points})
-		if f, ok := c07Floors[c07Class(c)]; ok {
-			for _, p := range r.points {
-				if p.Live < 50 {
-					continue
-				}
-				if f.Sd0 > 0 {
-					zsum0 += (p.Recall0 - f.Mean0) / f.Sd0
-					zn0++
-				}
-				if f.Sd1 > 0 {
-					zsum1 += (p.Recall1 - f.Mean1) / f.Sd1
-					zn1++
-				}
-				if f.SdS > 0 && p.Self >= 0 {
-					zsumS += (p.Self - f.MeanS) / f.SdS
-					znS++
-				}
+		recs = append(recs, c07Rec{Case: c, Points: r.points})
+		if r.seqWork {
+			col.Excluded(c07FindingPrune) // judged against floors measured with the defect in
+		}
+		for _, p := range r.points {
+			if p.Live < 50 {
+				continue
+			}
+			if strings.HasSuffix(p.Class, "R") {
+				col.Label("checkpoint-observed-only(restored fast-import graph)", 1)
+				continue
+			}
+			f, ok := c07Floors[c07JudgeClass(p.Class)]
+			if !ok {
+				col.Label("checkpoint-observed-only(class without measured floor)", 1)
+				continue
+			}
+			col.Label("checkpoint-asserted", 1)
+			if f.R1.Floor >= 0.5 {
+				col.Label("checkpoint-asserted-with-recall(ef100)-floor>=0.5", 1)
+			}
+			zsum0 += (p.Recall0 - f.R0.Mean) / f.R0.Sd
+			zn0++
+			zsum1 += (p.Recall1 - f.R1.Mean) / f.R1.Sd
+			zn1++
+			if p.Self >= 0 {
+				zsumS += (p.Self - f.Self.Mean) / f.Self.Sd
+				znS++
 			}
 		}
-	})
+	}
+	// anchor cases (shard 0 only): the engine's default graph parameters (M=16, efConstruction=200) on the
+	// hardest data of the quick tier (dim 64, unclustered) - the class where efSearch matters most - and a
+	// typical small configuration; only their seeds vary with the campaign seed.
+	if verifkit.Shard() == 0 {
+		sd := uint64(verifkit.Seed())
+		anchors := []c07RecallCase{
+			{LevelSeed: int64(sd%100000) + 1, DataSeed: sd*7919 + 11, Cfg: c07Cfg{Metric: "euclidean", Prec: "float32", M: 16, EfC: 200, Dim: 64}, N: 2000, Data: "gauss", Build: "single", Chunk: 200, Phases: []string{"del30", "vacuum", "grow"}, NQ: 60},
+			{LevelSeed: int64(sd%100000) + 2, DataSeed: sd*104729 + 5, Cfg: c07Cfg{Metric: "cosine", Prec: "float32", M: 8, EfC: 40, Dim: 16}, N: 1000, Data: "uniform", Build: "batch", Chunk: 200, Phases: []string{"del10", "refine", "restart"}, NQ: 60},
+		}
+		for _, a := range anchors {
+			if !t.Failed() {
+				one(a, func(m string) { t.Error(m) }, "anchor")
+			}
+		}
+	}
+	if !t.Failed() {
+		rapid.Check(t, func(rt *rapid.T) {
+			c := c07GenRecall(maxDim).Draw(rt, "case")
+			one(c, func(m string) { rt.Fatalf("%s", m) })
+		})
+	}
 	// aggregate floor: the mean z-score of n checkpoints has sd 1/sqrt(n) (checkpoints of one case are
 	// correlated, which only makes the real sd larger than assumed by at most sqrt(6); 10 sd leaves room)
 	agg := map[string]any{}
@@ -706,7 +841,7 @@ func TestVerif_C07_recall(t *testing.T) {
 		}
 	}
 	col.Extra(fmt.Sprintf("aggregate_s%d", verifkit.Shard()), agg)
-	col.Extra("floors_mean_sd(recall_ef0,recall_ef100,self)_by_class", c07Floors)
+	col.Extra("floors_by_class(measured on the unchanged tree)", c07Floors)
 	// measured distribution of this run (per class), and optionally the raw records
 	col.Extra(fmt.Sprintf("measured_s%d", verifkit.Shard()), c07Summarise(c07ByClass(recs)))
 	if dump := os.Getenv("VERIF_C07_DUMP"); dump != "" {
@@ -717,7 +852,6 @@ func TestVerif_C07_recall(t *testing.T) {
 }
 
 type c07Rec struct {
-	Class  string        `json:"class"`
 	Case   c07RecallCase `json:"case"`
 	Points []c07Point    `json:"points"`
 }
@@ -727,7 +861,7 @@ func c07ByClass(recs []c07Rec) map[string][]c07Point {
 	for _, r := range recs {
 		for _, p := range r.Points {
 			if p.Live >= 50 {
-				out[r.Class] = append(out[r.Class], p)
+				out[p.Class] = append(out[p.Class], p)
 			}
 		}
 	}
